@@ -6,13 +6,13 @@ use pvcore::run::*;
 
 fn main() {
     // the reference solver impersonates the real ones: it must be first on PATH (single-threaded here)
-    let dir = std::env::var("PV_SOLVER_DIR").unwrap_or_else(|_| "/verif/bin/solvers".to_string());
+    let dir = std::env::var("PV_SOLVER_DIR").unwrap_or_else(|_| format!("{}/bin/solvers", verif_root()));
     let path = std::env::var("PATH").unwrap_or_default();
     unsafe {
         std::env::set_var("PATH", format!("{dir}:{path}"));
         std::env::remove_var("REFSMT_TRACE");
     }
-    let _ = std::fs::create_dir_all("/verif/scratch");
+    let _ = std::fs::create_dir_all(format!("{}/scratch", verif_root()));
     main_with(&[
         Entry { id: "C05", level: "exploration", meta: c05::meta, run: c05::run, replay: c05::replay },
         Entry { id: "C14", level: "exploration", meta: c14::meta, run: c14::run, replay: c14::replay },
